@@ -20,6 +20,9 @@ pub struct ApiOpts {
     pub input: String,
 }
 
+fn origs_len(objects: &[(i64, usize, Arc<Box<dyn DynSampler>>)]) -> usize {
+    objects.iter().map(|o| o.1 + 1).max().unwrap_or(0)
+}
 fn spec_of(o: &Origin) -> GraphSpec {
     GraphSpec { edges: o.edges.clone(), mass: o.mass.clone(), weights: o.weights.clone(), ext: o.ext.clone() }
 }
@@ -142,6 +145,39 @@ pub fn run(lines: &[Value], opts: &ApiOpts, trace_path: &str) -> Summary {
                 r.events.push(json!({"ev": "Rng", "t": 0, "draws": draws as i64, "dim": s.dim() as i64, "same_numbers": same_draws}));
                 sm.evaluations += 1;
                 sm.count("rng_calls");
+            }
+        }
+    }
+    // ---- slot-reuse phase: samplers built one after the other into the SAME variable / heap slot on this thread
+    // (an address is not an identity: whatever is remembered about the previous occupant must not be used)
+    {
+        #[allow(unused_assignments)]
+        let mut slot: Option<Box<dyn DynSampler>> = None;
+        let idxs: Vec<usize> = (0..origs_len(&objects)).collect();
+        for round in 0..2 {
+            for &oi in idxs.iter() {
+                if (oi + round) % 2 == 1 { continue; }
+                let o = &origins[oi];
+                slot = None; // drop the previous occupant first so that the allocator can hand out the same slot
+                let _ = &slot;
+                if let BuildOut::Ok(b) = build(&spec_of(o), o.sig.clone(), o.d) {
+                    if b.to_json_string().contains("null") { continue; }
+                    let sid = next_sid; next_sid += 1;
+                    rec.lock().unwrap().events.push(json!({"ev": "Build", "sid": sid, "origin": oi as i64 + 1, "proc": "slot-reuse"}));
+                    query(&rec, sid, b.as_ref());
+                    let (x, stab, seed) = arg_for(&o.key, b.dim().min(4096), 0);
+                    rec.lock().unwrap().events.push(json!({"ev": "Begin", "t": 0, "sid": sid, "arg": 1, "meta": false, "debug": false, "via": "rng"}));
+                    let (out, draws, xs, _) = b.sample_rng(&edge_data(o), &Settings::new(stab, false, false), seed);
+                    let same = xs.len() == x.len() && xs.iter().zip(&x).all(|(p, q)| p.to_bits() == q.to_bits());
+                    let mut r = rec.lock().unwrap();
+                    let res = r.intern(digest_of(&out));
+                    r.events.push(json!({"ev": "End", "t": 0, "res": res, "outcome": out.outcome.name()}));
+                    r.events.push(json!({"ev": "Rng", "t": 0, "draws": draws as i64, "dim": b.dim() as i64, "same_numbers": same}));
+                    drop(r);
+                    sm.evaluations += 1;
+                    sm.count("slot_reuse_builds");
+                    slot = Some(b);
+                }
             }
         }
     }
